@@ -50,6 +50,10 @@ def marshaller(
     if not nodes:
         return routines.NoOpMarshaller(t=t, context=context, var=None)  # type: ignore[arg-type]
 
+    # The type graph skips members annotated `Any` (there is nothing to resolve),
+    #   but composite routines still look their member type up: it passes through.
+    context[tp.Any] = routines.NoOpMarshaller(t=tp.Any, context=context, var=None)  # type: ignore[arg-type]
+
     # "root" type will always be the final node in the sequence.
     root = nodes[-1]
     for node in nodes:
